@@ -175,6 +175,8 @@ def input_hash(sess, upto=None):
         if upto is not None and i > upto:
             break
         if e["ev"] == "def":
+            if e.get("opaque"):
+                h.update(json.dumps(["opaque", e["name"], e.get("digest", "")]).encode())
             h.update(json.dumps(["def", e["name"], e.get("k", 0), [[[q[:2] for q in r] for r in p] for p in e["mp"]]], separators=(",", ":")).encode())
         elif e["ev"] == "filler":
             h.update(json.dumps(["filler", e["n"], e["op"]]).encode())
@@ -270,3 +272,29 @@ def abstract_laws(workdir, buggy=False, maxcalls=2):
            "  C07_RepresentationInvariant\n  C09_FarPartLocal\n  C11_ChainedAlgebra\n  C11_Examples\n  C12_Deterministic\nCHECK_DEADLOCK FALSE\n") % (maxcalls, "TRUE" if buggy else "FALSE")
     out, dt = run_tlc("BoolOpsAbs.tla", cfg, workdir, timeout=3000)
     return parse_tlc(out, set()), dt
+
+
+def fixtures_file(path):
+    """The repository's own test inputs (tests/fixtures/**/*.geojson: first two features), as one
+    json line each, for `vh rec-fixtures`. Read from /repo's working tree at check time."""
+    import glob
+    n = 0
+    with open(path, "w") as out:
+        for f in sorted(glob.glob("/repo/tests/fixtures/**/*.geojson", recursive=True)):
+            if "/benchmarks/" in f:
+                continue
+            try:
+                d = json.load(open(f))
+                feats = d["features"][:2]
+                if len(feats) < 2:
+                    continue
+                mps = []
+                for ft in feats:
+                    g = ft["geometry"]
+                    polys = [g["coordinates"]] if g["type"] == "Polygon" else g["coordinates"]
+                    mps.append([[[[float(q[0]), float(q[1])] for q in ring] for ring in poly] for poly in polys])
+                out.write(json.dumps({"name": os.path.relpath(f, "/repo/tests/fixtures"), "A": mps[0], "B": mps[1]}) + "\n")
+                n += 1
+            except Exception:
+                continue
+    return n
